@@ -92,7 +92,7 @@ def error_shape(exc):
         iv = getattr(leaf, "input_value", "<none>")
         extra = ""
         if hasattr(leaf, "fields"):
-            extra = str(sorted(leaf.fields))
+            extra = str(sorted(leaf.fields, key=repr))
         out.append((type(leaf).__name__, tuple(str(t) for t in trail), codec.show(iv, 60), extra))
     return sorted(out)
 
